@@ -279,6 +279,7 @@ func runC08(run *Run, replay string) {
 	ctx := context.Background()
 	matchWalkCases(run, rand.New(rand.NewSource(subSeed(run.Res.Seed, 515151))), n*6)
 	operandSymmetryOracle(run, rand.New(rand.NewSource(subSeed(run.Res.Seed, 616161))), n*2)
+	funcCandidateCases(run, rand.New(rand.NewSource(subSeed(run.Res.Seed, 717171))), 1+n/12)
 	for i := 0; i < n; i++ {
 		r := rand.New(rand.NewSource(subSeed(run.Res.Seed, i)))
 		sc, cfg := tfScenario(r)
